@@ -17,7 +17,8 @@ IsEvent(e) == l <= Len(Trace) /\ Ev.ev = e /\ l' = l + 1
 
 CfgOf(e) == [scn |-> e.cfg.scn, needInfo |-> e.cfg.needInfo, ext |-> e.cfg.ext, script |-> e.cfg.script,
              plan |-> e.cfg.plan, present |-> ToSet(e.cfg.present), rfail |-> e.cfg.rfail, rcancel |-> e.cfg.rcancel,
-             initRows |-> e.cfg.initRows, wbreak |-> e.cfg.wbreak]
+             initRows |-> e.cfg.initRows, wbreak |-> e.cfg.wbreak,
+             closeFails |-> ("closeFails" \in DOMAIN e.cfg /\ e.cfg.closeFails)]
 
 TInit == /\ Len(Trace) >= 1 /\ Trace[1].ev = "Begin" /\ InitWith(CfgOf(Trace[1])) /\ l = 2 /\ tb = 1 /\ seen = <<>>
 
